@@ -74,12 +74,12 @@ func checkC04(c *Check) {
 				continue
 			}
 			fv := fieldOf(info, ix.X)
-			if fv == nil || (fv.Name() != "perSource" && fv.Name() != "perRcpt") {
+			if fv == nil || (objName(fv) != "perSource" && objName(fv) != "perRcpt") {
 				continue
 			}
 			nIns++
 			c.SawFunc(fi.Name())
-			key := refName(fi.Obj) + ":" + fv.Name()
+			key := refName(fi.Obj) + ":" + objName(fv)
 			k := objOf(info, ix.Index)
 			if k == nil {
 				c.Fail("R1w", key, as.Pos(), "undecided: inserted key is not a variable")
@@ -198,7 +198,7 @@ func checkC04(c *Check) {
 		// table loop
 		loops := rangesIn(r.FI.Decl.Body, func(rs *ast.RangeStmt) bool {
 			fv := fieldOf(info, rs.X)
-			return fv != nil && fv.Name() == s.tables
+			return fv != nil && objName(fv) == s.tables
 		})
 		// map lookups
 		type lk struct {
@@ -218,7 +218,7 @@ func checkC04(c *Check) {
 				continue
 			}
 			fv := fieldOf(info, ix.X)
-			if fv == nil || fv.Name() != s.m {
+			if fv == nil || objName(fv) != s.m {
 				continue
 			}
 			lks = append(lks, lk{q, objOf(info, ix.Index), objOf(info, as.Lhs[1]), as})
@@ -451,7 +451,7 @@ func checkC04(c *Check) {
 			var tloop *ast.RangeStmt
 			for _, rs := range rangesIn(r.FI.Decl.Body, func(rs *ast.RangeStmt) bool {
 				fv := fieldOf(info, rs.X)
-				return fv != nil && fv.Name() == "targets" && posIn(rs.Body, call.Pos())
+				return fv != nil && objName(fv) == "targets" && posIn(rs.Body, call.Pos())
 			}) {
 				tloop = rs
 			}
@@ -491,7 +491,7 @@ func checkC04(c *Check) {
 					lp, _ := r.F.PtOf(tloop.X.Pos())
 					avoid := r.F.AvoidImplying(func(atom ast.Expr) (bool, bool) {
 						if be, ok := ast.Unparen(atom).(*ast.BinaryExpr); ok && (be.Op == token.EQL || be.Op == token.NEQ) && isNilIdent(info, be.Y) {
-							if fv := fieldOf(info, be.X); fv != nil && fv.Name() == "rejectErr" {
+							if fv := fieldOf(info, be.X); fv != nil && objName(fv) == "rejectErr" {
 								return be.Op == token.EQL, true // remove "no reject configured" edges
 							}
 						}
@@ -515,10 +515,10 @@ func checkC04(c *Check) {
 	if r := c.need("R4", pipelineRel, "msgpipelineDelivery", "start"); r != nil {
 		// the sender block's reject is honoured before the block is stored
 		info := r.Info
-		store := r.Assigns(func(l, _ ast.Expr) bool { fv := fieldOf(info, l); return fv != nil && fv.Name() == "sourceBlock" })
+		store := r.Assigns(func(l, _ ast.Expr) bool { fv := fieldOf(info, l); return fv != nil && objName(fv) == "sourceBlock" })
 		avoid := r.F.AvoidImplying(func(atom ast.Expr) (bool, bool) {
 			if be, ok := ast.Unparen(atom).(*ast.BinaryExpr); ok && (be.Op == token.EQL || be.Op == token.NEQ) && isNilIdent(info, be.Y) {
-				if fv := fieldOf(info, be.X); fv != nil && fv.Name() == "rejectErr" {
+				if fv := fieldOf(info, be.X); fv != nil && objName(fv) == "rejectErr" {
 					return be.Op == token.EQL, true
 				}
 			}
